@@ -100,6 +100,7 @@ FAMILIES['C07'] = [
     fam('pool-3-acquire', ['PACQ HOLD PRELALL', 'PACQ HOLD PRELALL', 'TADD PACQ HOLD PRELALL'], witness=True, w=5),
     fam('pool-preempt', ['PACQ HOLD PRELALL', 'HOLD PPRE HOLD PRELALL', 'TADD PACQ HOLD PRELALL'], PRIOS='{0,1,2}', w=10),
     fam('pool-preempt-symprio', ['PACQ HOLD PRELALL', 'HOLD PPRE HOLD PRELALL'], PRIOSYM=1, POOLCAP=0, w=6),
+    fam('pool-preempt-and-interrupt-same-instant', ['PACQ HOLD HOLD', 'HOLD PPRE HOLD PRELALL', 'HOLD INTR0'], PRIOS='{0,5,0}', POOLCAP=2, w=6),      # known finding F-C05-a (pool variant)
     fam('pool-cross-preempt', ['PACQ ACQ HOLD PACQ HOLD', 'HOLD PACQ HOLD PRELALL', 'HOLD PREEMPT HOLD'], PRIOS='{0,1,1}', w=12),
     fam('pool-partial-release-exit-stop', ['PACQ HOLD PREL HOLD', 'PACQ HOLD EXIT', 'HOLD STOP0'], w=4),
     fam('pool-topup-interrupted', ['PACQ HOLD PACQ HOLD PRELALL', 'PACQ HOLD PRELALL', 'HOLD INTR0'], POOLCAP=4, w=8),
